@@ -12,6 +12,7 @@ import (
 	"verif/mc/evalpha"
 	"verif/mc/evgen"
 	"verif/mc/harness"
+	"verif/mc/poison"
 	"verif/mc/ref/refevent"
 	"verif/mc/ref/refjson"
 	"verif/mc/ref/refversions"
@@ -121,6 +122,7 @@ type seqCase struct {
 }
 
 func runSeq(r *harness.Run, c seqCase) error {
+	poison.Redaction(c.Version) // refused events first: what they leave behind must not reach this event's identity
 	r.Eval()
 	row := refversions.Get(c.Version)
 	ev, err := evalpha.Build(c.Version, c.Proto)
